@@ -61,9 +61,9 @@ CHECKS["C40"] = dict(
 CHECKS["C42"] = dict(
     level="exploration", engine="E2",
     technique="metamorphic property-based testing (two insertion orders must give the same replicator set) plus cardinality oracles",
-    level_text="Two Chain objects with the same derived sharders inserted in different generated orders must compute identical replicator sets for generated hashes (including low-entropy hashes that force score ties); cardinality and disabled-replication clauses are checked directly.",
+    level_text="Two long-lived Chain objects with the same magic blocks but sharders inserted in different generated orders answer generated (round, hash) query sequences; each answer must equal the other chain's and the answer of a fresh chain that knows only the magic block in force (differential), and all three 'who stores this block' entry points must agree; cardinality and disabled-replication clauses are checked directly.",
     level_note="Sharder ids come from derived BLS keys; the XOR scorer and pool are the real ones; 'enough sharders' is read as n >= replicators.",
-    parts=[dict(pkg=CHN, run="^TestC42_Replicators$", quick=2000, thorough=160000, floor=50)],
+    parts=[dict(pkg=CHN, run="^TestC42_Replicators$", quick=500, thorough=40000, floor=50)],
 )
 CHECKS["C36"] = dict(
     level="exploration", engine="E2",
@@ -90,4 +90,51 @@ CHECKS["C10"] = dict(
     level_text="The real DistributeRewards / DistributeRewardsRandN run on generated pools over a real state context; the sum of all reward increments is compared with the paid amount in exact arithmetic, each delegate's share with the exact proportional share within a stated float tolerance, and the kill / min-stake / N clauses directly.",
     level_note="The oracle sums the pools' own Reward fields, not the emitted event. Calls that return an error are not judged (an error aborts the transaction; rollback is C02's subject).",
     parts=[dict(pkg=SPL, run="^TestC10_DistributeRewards$", quick=20000, thorough=1600000, floor=200)],
+)
+PRT = "0chain.net/smartcontract/partitions"
+CHECKS["C25"] = dict(
+    level="exploration", engine="E2",
+    technique="stateful (model-based) property-based testing: rapid state machine over real Partitions on a real MPT vs a reference map, full observation after every step",
+    level_text="Generated histories of every exported partition operation, with saves, reloads in the same transaction, commits to a new transaction and discarded transactions, run against the real Partitions code over a real Merkle Patricia trie and state context; after every step membership, lookup, full iteration, per-partition fill and size are compared with a reference map.",
+    level_note="Trusts the reference map; items are a small msgp-encoded struct; ids drawn from 12 ids so reuse is frequent.",
+    parts=[dict(pkg=PRT, run="^TestC25_PartitionsAsSet$", quick=2500, thorough=200000, steps=60, floor=30)],
+)
+CST = "0chain.net/chaincore/chain/state"
+CHECKS["C43"] = dict(
+    level="exploration", engine="E2",
+    technique="property-based testing of evaluation sequences against the reference predicate (recorded && block round >= fork round), with generated missing-node faults",
+    level_text="Sequences of WithActivation evaluations over real state contexts / real tries (several states, several fork names, block rounds at r-1, r, r+1 in any order inside one process) are compared with the reference predicate; a fifth of the evaluations run on a state copy with one trie node removed, where refusing is allowed but running the wrong rule set is not.",
+    level_note="Fork rounds and block rounds are drawn from boundary-biased sets; the fault model is a single missing trie node.",
+    parts=[dict(pkg=CST, run="^TestC43_Activation$", quick=1500, thorough=120000, floor=30)],
+)
+ENC = "0chain.net/core/encryption"
+CLI = "0chain.net/chaincore/client"
+CHECKS["C47"] = dict(
+    level="exploration", engine="E2",
+    technique="property-based round-trip (sign then verify) with generated single tamperings; stateful test of the client-id invariant",
+    level_text="For both schemes derived key pairs sign drawn hashes; the genuine signature must verify on a verifier built from the public key string, and one generated tampering of signature, key or hash (bit flips, truncation, extension by extra bytes, foreign key/hash) must not. A rapid state machine re-keys client objects through every key-setting path (incl. preset foreign id, JSON decode) and checks id == hash(public key) after each step.",
+    level_note="Keys are derived from VERIF_SEED; an error or a panic on malformed input counts as failure to verify (reported as a class, not a violation).",
+    parts=[
+        dict(pkg=ENC, run="^TestC47_SignVerify$", quick=3000, thorough=300000, floor=100),
+        dict(pkg=CLI, run="^TestC47_ClientID$", quick=400, thorough=40000, steps=12),
+    ],
+)
+CHECKS["C32"] = dict(
+    level="exploration", engine="E2",
+    technique="differential property-based testing: batched aggregate verification vs individual verification over generated corruption patterns",
+    level_text="Generated sets of (key, message, signature) triples, batch sizes (including non-divisible totals) and corruption patterns (incl. the coordinated cancelling pair and a bad signature in the tail batch), with long-lived verifier key objects reused across several aggregate runs, are checked for agreement between Aggregate+Verify and the conjunction of individual Verify calls.",
+    level_note="Encryption-level only in this part; the oracle is the scheme's own individual Verify. The cancelling-pair class is a known finding (see known_findings.json).",
+    parts=[dict(pkg=ENC, run="^TestC32_AggregateAgreesWithIndividual$", quick=250, thorough=24000, floor=20)],
+)
+TBLS = "0chain.net/chaincore/threshold/bls"
+BLK = "0chain.net/chaincore/block"
+CHECKS["C34"] = dict(
+    level="exploration", engine="E2",
+    technique="property-based testing of complete DKG / threshold-signing runs with cryptographic round-trip oracles (validate, verify, recover agree across subsets)",
+    level_text="Complete DKG runs with generated (t, n, party ids, message, subsets, orders) use the real bls package end to end and check every statement clause as a round-trip; client threshold keys are exercised with ids and keys transported as strings, split keys with 1..7 parts; ShareOrSigns.Validate is compared with per-entry validity.",
+    level_note="Polynomial coefficients come from the library's CSPRNG (MakeDKG / GetMasterSecretKey offer no injection point); no oracle depends on their bytes. n <= 9 for DKG, n <= 14 for client threshold keys.",
+    parts=[
+        dict(pkg=TBLS, run="^TestC34_DKG$", quick=120, thorough=12000, floor=10),
+        dict(pkg=ENC, run="^TestC34_ThresholdAndSplitKeys$", quick=300, thorough=30000),
+    ],
 )
